@@ -490,6 +490,8 @@ pub fn run(id: &str, tier: Tier) -> i32 {
         violations.extend(vs);
     }
 
+    violations.extend(prop.aggregate(&acc.counters));
+
     // distinct non-trivial
     let mut distinct: HashSet<u64> = HashSet::new();
     for f in &nt_files {
